@@ -86,12 +86,18 @@ EffPrice(V, a) == IF PriceMissing(V, a) THEN [v |-> N1, dec |-> 0]
 (***************************************************************************)
 USD(amount, price, dec, pdec) == DecQuoInt(DecFromInt(NMul(amount, price), PREC), NPow10(dec + pdec))
 
+\* cosmossdk.io/math panics with "Int overflow": Int.Mul above 256 bits, LegacyDec.MulInt / Add above
+\* 315 bits (lead L23: inside the epoch hook such a panic halts the chain)
+IntMulPanics(a, b) == NBitLen(NMul(a, b)) > 256
+DecPanics(d)       == NBitLen(d) > 315
+
 (***************************************************************************)
 (* x/delegation/keeper/share.go: TokensFromShares                           *)
 (***************************************************************************)
 VTokensFromShares(sh, tsh, amt) ==
   IF NGt(sh, tsh) THEN [v |-> N0, err |-> "ErrInsufficientShares"] ELSE
   IF NIsZero(tsh) THEN (IF NIsZero(amt) THEN [v |-> N0, err |-> ""] ELSE [v |-> N0, err |-> "ErrDivisorIsZero"]) ELSE
+  IF DecPanics(DecMulInt(sh, amt)) THEN [v |-> N0, err |-> "PANIC"] ELSE
   [v |-> DecTruncInt(DecQuo(DecMulInt(sh, amt), tsh, PREC), PREC), err |-> ""]
 
 (***************************************************************************)
@@ -103,11 +109,13 @@ StakingInfo(P, V, o, assets) ==
         IF acc.err # "" THEN acc ELSE
         IF a \notin assets \/ ~P[<<o, a>>].ex THEN acc ELSE
         LET p  == P[<<o, a>>]
-            pr == EffPrice(V, a)
-            te == VTokensFromShares(p.osh, p.tsh, p.amt) IN
+            pr == EffPrice(V, a) IN
+        IF IntMulPanics(p.amt, pr.v) THEN [acc EXCEPT !.err = "PANIC"] ELSE
+        LET tot == NAdd(acc.total, USD(p.amt, pr.v, DECI[a], pr.dec)) IN
+        IF DecPanics(tot) THEN [acc EXCEPT !.err = "PANIC"] ELSE
+        LET te == VTokensFromShares(p.osh, p.tsh, p.amt) IN
         IF te.err # "" THEN [acc EXCEPT !.err = te.err] ELSE
-        [total |-> NAdd(acc.total, USD(p.amt, pr.v, DECI[a], pr.dec)),
-         self  |-> NAdd(acc.self, USD(te.v, pr.v, DECI[a], pr.dec)), err |-> ""]
+        [total |-> tot, self |-> NAdd(acc.self, USD(te.v, pr.v, DECI[a], pr.dec)), err |-> ""]
   IN VFold(step, [total |-> N0, self |-> N0, err |-> ""], AORD)
 
 MinSelfDec(V, x) == DecFromInt(V.avs[x].minSelf, PREC)
@@ -191,7 +199,17 @@ KeyRemovalDone(V, a) ==
 \* a new latest price round (how rounds come about is C12's business)   a = [a, p, pd]
 SetPrice(V, a) == VOk([V EXCEPT !.price[a.a] = [valid |-> TRUE, v |-> NC(a.p), dec |-> a.pd]])
 
-EpochEnd(P, V, a) == VOk(BeginBlock(P, V, TickTime(V, a.id)))
+\* a panic inside the operator epoch hook is not recovered by BeginBlock: the block (and the chain)
+\* stops, nothing of it is written
+HookPanics(P, V, t) ==
+  \E i \in DOMAIN EIDS : LET id == EIDS[i] IN
+     /\ V.ep[id].end < t
+     /\ \E x \in DueAVSs(V, id, V.ep[id].cur), o \in VOPS :
+           V.usd[<<x, "canon", o>>].ex /\ StakingInfo(P, V, o, V.avs[x].assets).err = "PANIC"
+
+EpochEnd(P, V, a) ==
+  LET t == TickTime(V, a.id) IN
+  IF HookPanics(P, V, t) THEN VFail([V EXCEPT !.now = t], "PANIC") ELSE VOk(BeginBlock(P, V, t))
 
 \* x/avs/keeper/keeper.go: UpdateAVSInfo(UpdateAction)   a = [avs, minSelf, assets (a set)]
 \* new asset list and minimum; the starting epoch is reset to the epoch after the current one
